@@ -359,6 +359,8 @@ def execute(sc):
                     _viol(V, "pt_timed." + v["invariant"], v["detail"])
             for budget, elapsed in r.get("timed_ops", []):
                 stats["op_pt_run_for"] += 1
+                if budget >= 86400.0:
+                    stats["probe_pt_budget_of_a_day_or_more"] += 1
                 if elapsed < budget - 1e-6:
                     _viol(V, "timed.exhaust", "ParallelTempering.run_for returned after %.4g simulated s, budget %.4g s" % (elapsed, budget))
             sim_seconds = r["sim_seconds"]
